@@ -133,6 +133,8 @@ def case_strategy(draw, tier):
         'identical', 'identical', 'cell_big', 'cell_big', 'cell_small',
         'null_to_value', 'value_to_null', 'rename', 'retype', 'retype',
         'retype_changed', 'move', 'add_row', 'drop_row', 'add_col', 'drop_col', 'shuffle']))
+    if edit == 'cell_small' and draw(st.booleans()):
+        p = draw(st.sampled_from([0, 0, 1]))    # where rounding bites first
     peff = 6 if p is None else p
     info = {'edit': edit}
     data_cols = [c for c in act['cols'] if c['name'] != 'k']
@@ -305,10 +307,16 @@ def case_strategy(draw, tier):
                       {'first': draw(st.integers(0, max(1, n)))}
                       if use_key and draw(st.integers(0, 4)) == 0 else None),
         'precision': p,
-        'type_matching': draw(st.sampled_from([None, 'strict', 'medium',
-                                               'permissive'])),
+        # (a retyped column is where the loose levels differ from strict
+        # and from each other)
+        'type_matching': draw(st.sampled_from(
+            ['medium', 'permissive', 'medium', 'permissive', None, 'strict']
+            if info['edit'].startswith('retype') else
+            [None, 'strict', 'medium', 'permissive'])),
     }
-    entry = draw(st.sampled_from(ENTRIES))
+    entry = draw(st.sampled_from(
+        ENTRIES[:2] * 2 + ENTRIES if info['edit'].startswith('retype')
+        else ENTRIES))
     if entry != 'check_dataframe':
         # only check_dataframe takes check_extra_cols
         opts['check_extra_cols'] = {'form': 'none', 'cols': []}
